@@ -11,7 +11,7 @@ for f in os.listdir(out):
     p = os.path.join(out, f)
     if os.path.isfile(p) and os.path.getsize(p) < 400000:
         shutil.copy(p, dst)
-log = open(os.path.join(out, 'confirm.log')).read()
+log = open(os.path.join(out, 'confirm.log'), errors='replace').read()
 res = re.findall(r'^RESULT.*$', log, re.M)
 files = re.findall(r'^\+\+\+ b/(.*)$', open(os.path.join(out, 'patch.diff')).read(), re.M)
 meta = {'property': prop, 'also_check': also, 'name': name, 'files_changed': files, 'needs_to_manifest': needs,
